@@ -107,7 +107,7 @@ class McmcPersonalizeAlgorithm(
         self._terminate_algo(model, state)
         # Create the IndividualParameters object
         return IndividualParameters.from_pytorch(
-            dataset.indices, individual_parameters_torch
+            [str(idx) for idx in dataset.indices], individual_parameters_torch
         )
 
     def _initialize_algo(
